@@ -323,7 +323,9 @@ Definition normalize_index (rep : bool) (ix : index) (nd : Z) : err + list nitem
     | [IInt z] => inr (NInt z :: repeat nfull (Z.to_nat (nd - 1)))
     | [ISlice a b c] => inr (NSlice a b c :: repeat nfull (Z.to_nat (nd - 1)))
     | [IMask bs true] =>
-      if forallb (fun b => b) bs then inr (repeat nfull (Z.to_nat nd))       (* index.all() *)
+      (* index.all(); repaired: `index.size and index.all()` - an EMPTY mask is vacuously all-True but selects nothing *)
+      if (if rep then match bs with [] => false | _ => true end else true) && forallb (fun b => b) bs
+      then inr (repeat nfull (Z.to_nat nd))
       else normalize_tuple rep nd [IMask bs false]                           (* index.tolist() *)
     | its => normalize_tuple rep nd its
     end
